@@ -329,6 +329,13 @@ def _run_case(case, acc):
     p.fd_reserved = case.get("fd_reserved", 0)     # numbers reserved by system calls in progress (counted by st_size only)
     viols = []
 
+    # where procfs is mounted is the administrator's choice: the mount point may itself contain the directory names the
+    # library appends below it
+    odd_mount = harness.chash(case)[-3] in "01"
+    primary = "/vmnt/fd/task/fdinfo/proc" if odd_mount else "/vproc"
+    ps.PROCFS_PATH = primary
+    if odd_mount:
+        acc.count("cases_with_procfs_mounted_under_directories_called_fd_task_fdinfo")
     moved = harness.chash(case)[-2] in "012"
     if moved:
         # psutil.PROCFS_PATH is re-pointed after the object was made: the object keeps describing the process of the procfs
@@ -344,7 +351,7 @@ def _run_case(case, acc):
     def newvk():
         vk = vkernel.VK()
         vk.table = t
-        vk.mount("/vproc", t)
+        vk.mount(primary, t)
         if moved:
             vk.mount("/vprocB", tb)
         return vk
@@ -461,7 +468,7 @@ def _run_case(case, acc):
             elif e["fd"] not in seen:
                 acc.count("left_out_checked")
     if moved:
-        ps.PROCFS_PATH = "/vproc"
+        ps.PROCFS_PATH = primary
         viols = [(m + ":procfs_path_moved_after_construction", d) for m, d in viols]
     # descriptors of one and the same kind are treated alike, however the file happens to be called
     if rows is not None:
@@ -500,6 +507,8 @@ def _run_case(case, acc):
                     viols.append((f"{m}_differs_via_as_dict", f"plain {plain[m]!r} vs as_dict {viad[1].get(m)!r}"[:500]))
         elif viad[1] not in [r[1] for r in plain.values() if r[0] == "exc"]:
             viols.append((f"as_dict_exception:{viad[1]}", f"as_dict raised {viad[1]}; plain calls {plain!r}"[:500]))
+    if odd_mount:
+        viols = [(m + ":procfs_mounted_under_fd_task_fdinfo", d + f" [procfs at {primary}]") for m, d in viols]
     acc.case(case, nontrivial(case), viols)
 
 
